@@ -127,7 +127,8 @@ def range_of(fr, name):
     f = lambda i: f0(i) + _EPS[0]
     if name == 'none':
         return None
-    return {'inside': (f(3), f(9)), 'clip_low': (f(0) - 5 * DF, f(4)), 'clip_high': (f(10), f(15) + 7 * DF),
+    return {'inside': (f(3), f(9)), 'clip_low': (f(0) - 5 * DF, f(4)), 'clip_high': (f(10), float('inf')),        # open-ended above (everything from channel 10 up)
+           
             'above': (f(15) + 4 * DF, f(15) + 9 * DF), 'below': (f(0) - 9 * DF, f(0) - 3 * DF),
             'single': (f(6), f(7)), 'reversed': (f(9), f(3))}[name]
 
